@@ -60,6 +60,13 @@ def load_lib() -> None:
     _lib_loaded = True
 
 
+def work_dir() -> str:
+    """Scratch directory of the current run (created by the runner, removed when the run ends)."""
+    d = os.environ.get("CPV_WORKDIR") or os.path.join(VERIF, ".work", f"adhoc_{os.getpid()}")
+    os.makedirs(d, exist_ok=True)
+    return d
+
+
 class HarnessError(Exception):
     """Something is wrong with the harness or environment (exit 2, never a VIOLATION)."""
 
